@@ -27,3 +27,8 @@ claim("C09", "grammar-based fuzzing + bounded-exhaustive enumeration (short stri
       "sequence of length <=4/<=5 over 20 token kinds fed directly to the parser; oracle = independent recursive-descent acceptor of the documented token grammar that derives the events, "
       "event-grammar acceptor, mark range/monotonicity, reference (line,column) count, source-slice equality for plain scalars/anchors/aliases.",
       "Trusted: vlib/ref_events.py, vlib/ref_marks.py. LibYAML marks are checked for range/monotonicity only. Two libyaml known findings (UnicodeDecodeError in the bridge; '[?]]' accepted).")
+claim("C08", "bounded-exhaustive enumeration of scalar texts + generated members/near-members, against a hand-written YAML 1.1 scalar recogniser/evaluator (reference model)",
+      "Every string of length <=4 (quick) / <=5 (thorough) over a 30-symbol alphabet and generated members/near-members of every type production are classified by the resolvers of the "
+      "loader and dumper classes (Python and C) and loaded by both safe loaders; the oracle is an independent character-level recogniser/evaluator of the YAML 1.1 type repository; "
+      "the dump direction round-trips look-alike strings and generated ints/floats/bools/None/dates/datetimes under every default_style on both back-ends.",
+      "Trusted: vlib/ref_scalar.py (the reference grammar is written out in its docstring), CPython float()/datetime for value arithmetic.")
